@@ -239,6 +239,13 @@ func (x *Exec) bigMethod(e *Env, callee *types.Func, recv ast.Expr, n *ast.CallE
 		r := z
 		r.Nil = Not(ok)
 		return r, true
+	case "Bit":
+		// bit i of |x| for a constant i (0 or 1)
+		if i, ok := x.simplifyWithPC(e.st, e.toIntTerm(e.expr(n.Args[0]))).Int64(); ok && i >= 0 && i < 4096 {
+			abs := Ite(Lt(zv, IntC(0)), Sub(IntC(0), zv), zv)
+			return e.convert(Scalar{EMod(EDiv(abs, IntB(pow2(int(i)))), IntC(2)), mathIntType}, types.Typ[types.Uint]), true
+		}
+		return nil, false
 	case "BitLen":
 		r := x.fresh("bitlen", IntS)
 		e.st.assume(Le(IntC(0), r))
